@@ -204,3 +204,49 @@ Definition C07_seamless_cursor : Prop :=
                   rev (cs_stack c') = above (rn (cu_lib cu)) merged \/
                   (exists r1 rest1, rest = r1 :: rest1 /\ from_num (bnum r1) (rev (cs_stack c')) = rest) \/
                   above (rn (cu_lib cu)) (rev (cs_stack c')) = rest).
+
+(* ------------------------------------------------------------------ through a target cursor *)
+
+(* the ready hub's retained chain holds every merged block numbered between its lowest block and its head
+   (stronger than files_agree: the chain has no gap where the files have a block) *)
+Definition files_on_hub (c : jcfg) (w : world) (merged : list block) : Prop :=
+  forall k hd s0 sg b,
+    h_ready (w_hub (world_after c k w)) = true ->
+    last_sent (h_f (w_hub (world_after c k w))) = Some hd ->
+    complete_segment (db (h_f (w_hub (world_after c k w)))) (bref hd) = Some (s0 :: sg, true) ->
+    In b merged -> snum s0 <= bnum b -> bnum b <= bnum hd ->
+    exists x, In x (s0 :: sg) /\ seg_blk x = b.
+
+(* a target cursor block the ready hub stores is on its retained chain (the branch of blocksThroughCursor for a
+   cursor block stored off the chain is not covered) *)
+Definition target_on_chain (c : jcfg) (w : world) (cu : cursor) : Prop :=
+  forall k hd sg,
+    h_ready (w_hub (world_after c k w)) = true ->
+    last_sent (h_f (w_hub (world_after c k w))) = Some hd ->
+    complete_segment (db (h_f (w_hub (world_after c k w)))) (bref hd) = Some (sg, true) ->
+    find (ri (cu_blk cu)) (store (db (h_f (w_hub (world_after c k w))))) <> None ->
+    block_in (ri (cu_blk cu)) sg = true.
+
+(* Target cursor on the chain (B in canon carries the cursor's block reference), default filter, no stop block.
+   Discipline for every outcome (the file source may end with "not implemented" when the files decide that the
+   cursor block is not theirs); when the stream ends waiting either it never left the files and holds a
+   beginning D1 of the merged blocks from start (all of them when the cursor block is in the files), or it
+   joined the hub and holds, from start on, exactly canon. *)
+Definition C07_seamless_target : Prop :=
+  forall (U : list block) (c : jcfg) (w : world) (ps : list (N * N)) (merged_end : N) (canon forked : list block)
+         (cu : cursor) (B : block),
+    wf_b U = true -> lib_ok_b LNone U = true ->
+    hub_of_universe U c w ->
+    chain_ok canon -> incl canon U ->
+    let merged := filter (fun b => bnum b <? merged_end) canon in
+    eventual_tip c w canon -> files_on_hub c w merged -> target_on_chain c w cu ->
+    j_mode c = 2 -> j_cursor c = Some cu -> j_filter c = 0 -> j_stop c = 0 ->
+    0 < j_bundle c -> Forall (fun b => bnum b < file_bound) merged ->
+    In B canon -> bref B = cu_blk cu ->
+    let res := stream_run c w ps merged_end merged forked in
+    let start := run_start c w in
+    (exists b, In b canon /\ bnum b = start) ->
+    exists c', cons_fold_aside cons0 (map as_new (fst res)) = Some c' /\
+               (snd res = JNil ->
+                  (exists D1 D2, from_num start merged = D1 ++ D2 /\ rev (cs_stack c') = D1) \/
+                  from_num start (rev (cs_stack c')) = from_num start canon).
